@@ -207,7 +207,9 @@ def need(nm):
     if nm in _table:
         return
     envb = nm.endswith("@envB")
-    d = os.path.abspath(os.path.join("..", "c12_fresh_table"))
+    if "_dir" not in _table:
+        _table["_dir"] = os.path.abspath(os.path.join("..", "c12_fresh_table"))   # fixed at first use: cases change the working directory
+    d = _table["_dir"]
     os.makedirs(d, exist_ok=True)
     out = os.path.join(d, nm + ".npz")
     wd = os.path.join(d, "cwd_" + nm)
@@ -316,6 +318,7 @@ def run_case(case):
     pick_ = rng.choice(len(plan), size=min(14, len(plan)), replace=False, p=wts / wts.sum())
     adjacency = [plan[i_] for i_ in pick_]
     step = 0
+    _home = [os.getcwd()]
     while step < 60 or pending:
         step += 1
         if step == 40 and adjacency:
@@ -327,7 +330,7 @@ def run_case(case):
         if pending:
             op, forced = pending.pop(0)
         else:
-            op = str(rng.choice(["solve", "solve", "solve", "threads", "reset", "manager", "wisdom", "noise", "burst"]))
+            op = str(rng.choice(["solve", "solve", "solve", "threads", "reset", "manager", "wisdom", "noise", "burst", "expire", "chdir"]))
         if op == "burst":
             # the same request several times in a row with allocation noise in between (temporaries land on other addresses / alignments)
             cand = [x for x in pool if x in LAYOUTS] or pool
@@ -346,6 +349,25 @@ def run_case(case):
             FM.reset_fft_manager()
             counters["fft_resets"] += 1
             hist.append("reset")
+            dirty = True
+        elif op == "expire":
+            # the transform plans kept by the FFT layer are dropped, as after a pause longer than its keep-alive time (public method)
+            try:
+                FM.get_fft_manager().clear_cache()
+            except Exception:
+                pass
+            counters["plan_cache_expiries"] = counters.get("plan_cache_expiries", 0) + 1
+            hist.append("expire")
+            dirty = True
+        elif op == "chdir":
+            # the working directory changes between solves (the FFT layer keeps its wisdom file relative to it): another, empty directory
+            # or back to the first one
+            here = os.getcwd()
+            sub = os.path.join(_home[0], "elsewhere")
+            os.makedirs(sub, exist_ok=True)
+            os.chdir(_home[0] if here != _home[0] else sub)
+            counters["working_directory_changes"] = counters.get("working_directory_changes", 0) + 1
+            hist.append("chdir")
             dirty = True
         elif op == "manager":
             k = int(rng.integers(1, 9))
@@ -483,6 +505,7 @@ def run_case(case):
     b = {f"threads_seen:{sorted({s[0] for s in states})}": 1}
     counters["distinct_states"] = len(states)
     counters["distinct_transitions"] = len(trans)
+    os.chdir(_home[0])
     return {"evals": counters["solves"], "nontrivial": bool(sigs), "sig": sorted(sigs), "buckets": b, "resid": resid, "counters": counters,
             "violations": viol, "sample": {"history": hist, "states_seen": [list(map(str, s)) for s in sorted(states, key=str)][:6]}}
 
